@@ -3,7 +3,7 @@
 # properties listed in meta.json "also"), reverts, and reports which checks exit 1.
 # Usage: bin/seedall.sh [name ...]      (no /repo edits may be pending; nothing else may use /repo meanwhile)
 cd /verif
-names=${@:-$(ls seeded)}
+names=${@:-$(cd seeded && ls -d */ | tr -d /)}
 if [ -n "$(git -C /repo status --porcelain)" ]; then echo "/repo has pending changes"; exit 2; fi
 for n in $names; do
   d=seeded/$n
